@@ -45,3 +45,11 @@ Definition parse_corr (c : parse_case) : N :=
 (* 1 = the tree is outside the hypothesis of the structural theorems (a string token shorter than its delimiters) *)
 Definition parse_strings_contract (c : parse_case) : N :=
   match pc_cst c with Some t => if string_nodes_ok (pc_content c) t then 0 else 1 | None => 0 end.
+
+(* C06: 0 = the tree satisfies the hypotheses of the totality theorems; 1 = node_safe fails somewhere; 2 = a lone quote *)
+Definition parse_safe_contract (c : parse_case) : N :=
+  match pc_cst c with
+  | Some t => if negb (tree_forall (node_safe (pc_content c)) t) then 1
+              else if ((pc_fmt c =? 3) || (pc_fmt c =? 4)) && negb (tree_forall (not_lone_quote (pc_content c)) t) then 2 else 0
+  | None => 0
+  end.
